@@ -2,7 +2,7 @@
 every exported pool strategy x candidate modes x batch sizes x data flavours; Skeleton A strategies
 are compared with the Lean model `poolQueryA` through the captured `simple_batch` call; every
 implementation output is judged by the property oracle and by the proved-equivalent Lean decider."""
-from . import _pool
+from . import _pool, _zoo_pool
 
 LEAN_TARGETS = ["SkaModel.Props.C01", "SkaModel.Gen.Skeleton", "SkaModel.Props.C01seq", "SkaModel.Props.C01choice"]
 LEVEL = "proof"
@@ -45,11 +45,15 @@ def generate(ctx):
 
 def correspond(ctx):
     _pool.explore(ctx, "C01", per_spec=10 if not ctx.thorough else 60, sizes=(4, 11) if not ctx.thorough else (4, 24))
+    _zoo_pool.run(ctx, "C01", [ctx.seed] if not ctx.thorough else [ctx.seed + 31 * k for k in range(4)], per_case_modes=None if ctx.thorough else 2)
 
 
 def search(ctx):
     _pool.explore(ctx, "C01", per_spec=40)
+    _zoo_pool.run(ctx, "C01", [ctx.seed + 7 * k for k in range(3)])
 
 
 def replay(payload):
+    if "zoo" in payload.get("replay", {}):
+        return _zoo_pool.replay("C01", payload["replay"])
     return _pool.replay_case("C01", payload)
